@@ -589,7 +589,7 @@ package scipipe
 
 // Assumed facts about Go's regexp for the four pattern literals of applyPathModifiers (validated by differential tests).
 //@ axiom re.subst.groups: forall m string :: isSubstMod(m) ==> reGroup("s\\/([^\\/]+)\\/([^\\/]*)\\/", m, 1) == substA(m) && reGroup("s\\/([^\\/]+)\\/([^\\/]*)\\/", m, 2) == substB(m)
-//@ axiom re.trim.group: forall m string :: fullMatch(m, "%[^\n]*") ==> reGroup("%(.*)", m, 1) == substr(m, 1, len(m) - 1)
+//@ axiom re.trim.group: forall m string :: isTrimMod(m) ==> reGroup("%(.*)", m, 1) == substr(m, 1, len(m) - 1)
 //@ axiom re.basename: forall x string :: !contains(x, "\n") ==> reReplaceAll(".*\\/", x, "") == afterLastSlash(x)
 //@ axiom re.dirname: forall x string :: !contains(x, "\n") ==> reReplaceAll("\\/[^\\/]*$", x, "") == beforeLastSlash(x)
 // Meaning of the two spec functions (documented semantics of basename / dirname).
@@ -607,12 +607,19 @@ package scipipe
 //@   ensures groups: forall i int :: res[i] == reGroup(regexLit(re), s, i)
 
 // The documented modifiers (docs/writing_workflows.md): basename, dirname, %SUFFIX, s/SEARCH/REPLACE/
-//@ define isSubstMod(m string) bool = fullMatch(m, "s/[^/%\n]+/[^/%\n]*/")
-//@ define isTrimMod(m string) bool = fullMatch(m, "%[^\n]*") && !matches(m, "s\\/([^\\/]+)\\/([^\\/]*)\\/")
-//@ define docMod(m string) bool = m == "basename" || m == "dirname" || isTrimMod(m) || isSubstMod(m)
+//@ ghost func isSubstMod(m string) bool
+//@ ghost func isTrimMod(m string) bool
 //@ ghost func substA(m string) string
 //@ ghost func substB(m string) string
+//@ axiom isSubstMod.def: forall m string :: isSubstMod(m) <==> fullMatch(m, "s/[^/%\n]+/[^/%\n]*/")
+//@ axiom isTrimMod.def: forall m string :: isTrimMod(m) <==> (fullMatch(m, "%[^\n]*") && !matches(m, "s\\/([^\\/]+)\\/([^\\/]*)\\/"))
+// How the code's own tests (substPtn.MatchString, trimEndPtn.MatchString, == "basename", == "dirname") come out for each kind
+// of documented modifier: proved from the two definitions above (pure regular-expression reasoning).
+//@ lemma kinds.subst[C15]: forall m string :: isSubstMod(m) ==> matches(m, "s\\/([^\\/]+)\\/([^\\/]*)\\/") && !matches(m, "%(.*)") && m != "basename" && m != "dirname" && !hasPrefix(m, "%")
+//@ lemma kinds.trim[C15]: forall m string :: isTrimMod(m) ==> matches(m, "%(.*)") && !matches(m, "s\\/([^\\/]+)\\/([^\\/]*)\\/") && m != "basename" && m != "dirname" && hasPrefix(m, "%") && !contains(m, "\n")
+//@ lemma kinds.basename[C15]: !matches("basename", "s\\/([^\\/]+)\\/([^\\/]*)\\/") && !matches("basename", "%(.*)") && !matches("dirname", "s\\/([^\\/]+)\\/([^\\/]*)\\/") && !matches("dirname", "%(.*)")
 //@ axiom subst.decomp: forall m string :: isSubstMod(m) ==> m == "s/" + substA(m) + "/" + substB(m) + "/" && len(substA(m)) > 0 && !contains(substA(m), "/") && !contains(substB(m), "/") && !contains(substA(m), "\n") && !contains(substB(m), "\n")
+//@ define docMod(m string) bool = m == "basename" || m == "dirname" || isTrimMod(m) || isSubstMod(m)
 //@ define trimSuffix(x string, s string) string = ite(len(x) > len(s) && hasSuffix(x, s), substr(x, 0, len(x) - len(s)), x)
 //@ define modstep(x string, m string) string = ite(m == "basename", afterLastSlash(x), ite(m == "dirname", beforeLastSlash(x), ite(hasPrefix(m, "%"), trimSuffix(x, substr(m, 1, len(m) - 1)), ite(isSubstMod(m), replaceFirst(x, substA(m), substB(m)), x))))
 
